@@ -6,6 +6,7 @@ import KyupyVerif.Drv.Datasheet
 import KyupyVerif.Drv.Traverse
 import KyupyVerif.Drv.CircObj
 import KyupyVerif.Drv.Netlist
+import KyupyVerif.Drv.NetText
 import KyupyVerif.Drv.Transform
 import KyupyVerif.Drv.WaveStrip
 import KyupyVerif.Drv.Grid
@@ -23,6 +24,7 @@ def extHandlers : List (String → List String → Option String) := [
   KV.Drv.Traverse.handle,
   KV.Drv.CircObj.handle,
   KV.Drv.Netlist.handle,
+  KV.Drv.NetText.handle,
   KV.Drv.Transform.handle,
   KV.Drv.WaveStrip.handle,
   KV.Drv.Grid.handle
